@@ -34,21 +34,37 @@ structure Basic (env : Env) (R : World → World → Prop) : Prop where
   probe : ∀ (w : World) (p : List (Nat × Option (Nat × Level))), R w { w with probes := p }
   succ : ∀ (w : World) (h : Nat) (a : Act) (fs : Fields), w.acts[h]? = some a → R w { w with acts := w.acts.set h { a with succ := a.succ.update fs } }
 
-namespace Basic
-variable {env : Env} {R : World → World → Prop} (hb : Basic env R)
+structure BasicD (env : Env) (R : World → World → Prop) : Prop where
+  refl : ∀ w, R w w
+  trans : ∀ {a b c}, R a b → R b c → R a c
+  /-- the body of `Destinations.send` up to and including the fan-out loop, as one step -/
+  deliver : ∀ (w : World) (m : Msg), R w (w.deliver env m).1
+  clock : ∀ (w : World), R w w.clock.1
+  nextLevel : ∀ (w : World) (h : Nat), R w (w.nextLevel h).1
+  freshAction : ∀ (w : World) (t : String) (s : Option (List (String × Nat) × List (String × Nat))), R w (w.freshAction t s).1
+  extCalls : ∀ (w : World), R w { w with extCalls := w.extCalls + 1 }
+  serCalls : ∀ (w : World), R w { w with serCalls := w.serCalls + 1 }
+  setFinished : ∀ (w : World) (h : Nat) (a : Act), w.acts[h]? = some a → R w { w with acts := w.acts.set h { a with finished := true } }
+  /-- `parent.child(..)`: hand out the next position of `p` and create the child there (one step:
+  a relation that speaks about which places are occupied could not hold for the creation alone) -/
+  appendChild : ∀ (w : World) (p : Nat) (pa : Act) (t : String) (s : Option (List (String × Nat) × List (String × Nat))), w.acts[p]? = some pa →
+    R w { (w.nextLevel p).1 with acts := (w.nextLevel p).1.acts ++
+      [({ uuid := pa.uuid, level := (w.nextLevel p).2, atype := t, sers := s } : Act)] }
+  /-- the action created by `continue_task` from a task id that was in `ids` -/
+  appendRemote : ∀ (w : World) (y u : Nat) (lvl : Level) (t : String) (s : Option (List (String × Nat) × List (String × Nat))), lookupNat w.ids y = some (u, lvl) →
+    R w { w with ids := w.ids.filter (fun e => e.1 != y),
+                 acts := w.acts ++ [({ uuid := u, level := lvl, atype := t, sers := s } : Act)] }
+  setCtx : ∀ (w : World) (c : Option Nat), R w { w with ctx := c }
+  setVars : ∀ (w : World) (v : List (Nat × Nat)), R w { w with vars := v }
+  /-- `serialize_task_id`: hand out the next position of `h` and remember it as task id `y` -/
+  reserve : ∀ (w : World) (h : Nat) (a : Act) (y : Nat), w.acts[h]? = some a →
+    R w { (w.nextLevel h).1 with ids := setNat (w.nextLevel h).1.ids y (a.uuid, (w.nextLevel h).2) }
+  probe : ∀ (w : World) (p : List (Nat × Option (Nat × Level))), R w { w with probes := p }
+  succ : ∀ (w : World) (h : Nat) (a : Act) (fs : Fields), w.acts[h]? = some a → R w { w with acts := w.acts.set h { a with succ := a.succ.update fs } }
+
+namespace BasicD
+variable {env : Env} {R : World → World → Prop} (hb : BasicD env R)
 include hb
-
-theorem fanOut (m : Msg) (ds : List Nat) (w : World) : R w (World.fanOut env w m ds).1 := by
-  induction ds generalizing w with
-  | nil => exact hb.refl w
-  | cons d ds ih => exact hb.trans (hb.callDest w d m) (ih _)
-
-theorem deliver (w : World) (m : Msg) : R w (w.deliver env m).1 := by
-  unfold World.deliver
-  simp only
-  split
-  · exact hb.trans (hb.stagePush w _) (hb.fanOut _ _ _)
-  · exact hb.trans (hb.stagePush w _) (hb.bufferSet _ _)
 
 theorem currentOrFresh (w : World) : R w w.currentOrFresh.1 := by
   unfold World.currentOrFresh
@@ -178,7 +194,7 @@ theorem prim : Prim env R where
   probe := hb.probe
   succ := hb.succ
 
-end Basic
+end BasicD
 
 /-- the three configuration statements, from their basic steps -/
 structure BasicCfg (env : Env) (R : World → World → Prop) : Prop where
@@ -187,7 +203,7 @@ structure BasicCfg (env : Env) (R : World → World → Prop) : Prop where
   removeDest : ∀ (w : World) (d : Nat), R w { w with dests := w.dests.erase d }
   addGlobals : ∀ (w : World) (fs : Fields), R w { w with globals := w.globals.update fs }
 
-theorem Basic.primCfg {env : Env} {R : World → World → Prop} (hb : Basic env R) (hc : BasicCfg env R) : PrimCfg env R where
+theorem BasicD.primCfg {env : Env} {R : World → World → Prop} (hb : BasicD env R) (hc : BasicCfg env R) : PrimCfg env R where
   addDests := fun w ds => by
     unfold World.addDests
     split
@@ -200,5 +216,38 @@ theorem Basic.primCfg {env : Env} {R : World → World → Prop} (hb : Basic env
       exact hb.trans (hc.startDelivery w ds) (key _ _)
   removeDest := hc.removeDest
   addGlobals := hc.addGlobals
+
+/-- the fine-grained steps give the coarse one -/
+theorem Basic.toD {env : Env} {R : World → World → Prop} (hb : Basic env R) : BasicD env R where
+  refl := hb.refl
+  trans := hb.trans
+  deliver := fun w m => by
+    have fan : ∀ (ds : List Nat) (w : World) (m : Msg), R w (World.fanOut env w m ds).1 := by
+      intro ds
+      induction ds with
+      | nil => intro w m; exact hb.refl w
+      | cons d ds ih => intro w m; exact hb.trans (hb.callDest w d m) (ih _ _)
+    unfold World.deliver
+    simp only
+    split
+    · exact hb.trans (hb.stagePush w _) (fan _ _ _)
+    · exact hb.trans (hb.stagePush w _) (hb.bufferSet _ _)
+  clock := hb.clock
+  nextLevel := hb.nextLevel
+  freshAction := hb.freshAction
+  extCalls := hb.extCalls
+  serCalls := hb.serCalls
+  setFinished := hb.setFinished
+  appendChild := hb.appendChild
+  appendRemote := hb.appendRemote
+  setCtx := hb.setCtx
+  setVars := hb.setVars
+  reserve := hb.reserve
+  probe := hb.probe
+  succ := hb.succ
+
+theorem Basic.prim {env : Env} {R : World → World → Prop} (hb : Basic env R) : Prim env R := hb.toD.prim
+theorem Basic.primCfg {env : Env} {R : World → World → Prop} (hb : Basic env R) (hc : BasicCfg env R) : PrimCfg env R :=
+  hb.toD.primCfg hc
 
 end Sys
